@@ -1650,3 +1650,14 @@ package ion
 //@ ensures[C10] err == nil && result != nil && cat == nil ==> vcAsBogusSST(result).name != ""
 //@ ensures[C10] err == nil && result != nil && cat == nil ==> vcAsBogusSST(result).name != "$ion"
 //@ safe[C06,C10]
+
+// Every element of the symbols list takes exactly one slot, whatever its type, so that the
+// IDs of the symbols after it do not move (C10, C05).
+//@ func readSymbols
+//@ split returns
+//@ requires r != nil
+//@ counts Reader.Next
+//@ modifies *
+//@ invariant loop0 [syms []string] len(syms) == vcCalls("Reader.Next")
+//@ ensures[C05,C10] err == nil && r.Type() == ListType ==> len(result)+1 == vcCalls("Reader.Next")
+//@ safe[C06,C10]
